@@ -54,6 +54,8 @@ impl Default for FsCfg {
 pub enum Node {
     File(Arc<Vec<u8>>),
     Dir(BTreeMap<String, Ino>),
+    /// symbolic link (only ever planted by the harness: the library creates none)
+    Symlink(String),
 }
 
 #[derive(Clone, Debug)]
@@ -80,16 +82,20 @@ impl Inode {
     pub fn is_file(&self) -> bool {
         matches!(self.node, Node::File(_))
     }
+    pub fn is_symlink(&self) -> bool {
+        matches!(self.node, Node::Symlink(_))
+    }
     pub fn data(&self) -> &[u8] {
         match &self.node {
             Node::File(d) => d,
-            Node::Dir(_) => &[],
+            _ => &[],
         }
     }
     pub fn size(&self) -> u64 {
         match &self.node {
             Node::File(d) => d.len() as u64,
             Node::Dir(e) => 4096 + 0 * e.len() as u64,
+            Node::Symlink(t) => t.len() as u64,
         }
     }
 }
@@ -98,6 +104,7 @@ impl Inode {
 pub struct Stat {
     pub ino: Ino,
     pub is_dir: bool,
+    pub is_symlink: bool,
     pub mode: u32,
     pub nlink: u32,
     pub size: u64,
@@ -199,14 +206,14 @@ impl SimFs {
     fn dir_entries(&self, ino: Ino) -> Result<&BTreeMap<String, Ino>, Errno> {
         match &self.inodes.get(&ino).ok_or(libc::ENOENT)?.node {
             Node::Dir(e) => Ok(e),
-            Node::File(_) => Err(libc::ENOTDIR),
+            _ => Err(libc::ENOTDIR),
         }
     }
 
     fn dir_entries_mut(&mut self, ino: Ino) -> &mut BTreeMap<String, Ino> {
         match &mut self.inodes.get_mut(&ino).expect("dangling dir").node {
             Node::Dir(e) => e,
-            Node::File(_) => panic!("not a directory"),
+            _ => panic!("not a directory"),
         }
     }
 
@@ -233,6 +240,19 @@ impl SimFs {
     /// Resolves `path` (absolute, or relative to the root) the way the
     /// kernel does, without symlinks.
     pub fn resolve(&self, path: &str) -> Result<Resolved, Errno> {
+        self.resolve_d(path, 0, true)
+    }
+
+    /// Resolution of a name about to be created (mkdir, link/rename target):
+    /// a final symbolic link is never followed, trailing slash or not.
+    pub fn resolve_create(&self, path: &str) -> Result<Resolved, Errno> {
+        self.resolve_d(path, 0, false)
+    }
+
+    fn resolve_d(&self, path: &str, depth: u32, follow_trailing: bool) -> Result<Resolved, Errno> {
+        if depth > 40 {
+            return Err(libc::ELOOP);
+        }
         if path.is_empty() {
             return Err(libc::ENOENT);
         }
@@ -265,6 +285,15 @@ impl SimFs {
                 name => entries.get(name).copied(),
             };
             if i == last {
+                // a trailing slash forces a final symbolic link to be followed
+                if trailing && follow_trailing {
+                    if let Some(n) = next {
+                        if let Node::Symlink(t) = &self.inode(n).node {
+                            let base = if t.starts_with('/') { t.clone() } else { format!("{}/{}", self.dir_path(cur), t) };
+                            return self.resolve_d(&format!("{}/", base), depth + 1, follow_trailing);
+                        }
+                    }
+                }
                 let special = *c == "." || *c == "..";
                 let (parent, name, canon) = if special {
                     let target = next.unwrap();
@@ -292,6 +321,13 @@ impl SimFs {
             match next {
                 None => return Err(libc::ENOENT),
                 Some(n) => {
+                    if let Node::Symlink(t) = &self.inode(n).node {
+                        // follow the link and continue with the remaining components
+                        let base = if t.starts_with('/') { t.clone() } else { format!("{}/{}", self.dir_path(cur), t) };
+                        let rest: Vec<&str> = comps[i + 1..].to_vec();
+                        let np = format!("{}/{}{}", base, rest.join("/"), if trailing { "/" } else { "" });
+                        return self.resolve_d(&np, depth + 1, follow_trailing);
+                    }
                     if !self.inode(n).is_dir() {
                         return Err(libc::ENOTDIR);
                     }
@@ -302,9 +338,29 @@ impl SimFs {
         unreachable!()
     }
 
-    /// Resolve to an existing inode.
+    /// Like `resolve`, but a symbolic link in the final position is followed
+    /// (as open/stat/chmod/utimensat do).  Links in intermediate positions are
+    /// followed by both.
+    pub fn resolve_follow(&self, path: &str) -> Result<Resolved, Errno> {
+        let mut path = path.to_string();
+        for _ in 0..40 {
+            let r = self.resolve(&path)?;
+            match r.ino.map(|i| &self.inode(i).node) {
+                Some(Node::Symlink(t)) => {
+                    path = if t.starts_with('/') { t.clone() } else { format!("{}/{}", self.dir_path(r.parent), t) };
+                    if r.must_be_dir {
+                        path.push('/');
+                    }
+                }
+                _ => return Ok(r),
+            }
+        }
+        Err(libc::ELOOP)
+    }
+
+    /// Resolve to an existing inode (final symbolic links followed).
     pub fn lookup(&self, path: &str) -> Result<Ino, Errno> {
-        let r = self.resolve(path)?;
+        let r = self.resolve_follow(path)?;
         let ino = r.ino.ok_or(libc::ENOENT)?;
         if r.must_be_dir && !self.inode(ino).is_dir() {
             return Err(libc::ENOTDIR);
@@ -317,6 +373,7 @@ impl SimFs {
         Stat {
             ino,
             is_dir: i.is_dir(),
+            is_symlink: i.is_symlink(),
             mode: i.mode,
             nlink: i.nlink,
             size: i.size(),
@@ -396,7 +453,7 @@ impl SimFs {
     }
 
     pub fn mkdir(&mut self, path: &str, mode: u32) -> Result<Ino, Errno> {
-        let r = self.resolve(path)?;
+        let r = self.resolve_create(path)?;
         if r.ino.is_some() {
             return Err(libc::EEXIST);
         }
@@ -411,7 +468,7 @@ impl SimFs {
     }
 
     pub fn rmdir(&mut self, path: &str) -> Result<(), Errno> {
-        let r = self.resolve(path)?;
+        let r = self.resolve_create(path)?;
         match last_component(path) {
             "." => return Err(libc::EINVAL),
             ".." => return Err(libc::ENOTEMPTY),
@@ -439,7 +496,7 @@ impl SimFs {
     }
 
     pub fn unlink(&mut self, path: &str) -> Result<Ino, Errno> {
-        let r = self.resolve(path)?;
+        let r = self.resolve_create(path)?;
         let ino = r.ino.ok_or(libc::ENOENT)?;
         if self.inode(ino).is_dir() {
             return Err(libc::EISDIR);
@@ -465,7 +522,7 @@ impl SimFs {
         if src.must_be_dir && !self.inode(ino).is_dir() {
             return Err(libc::ENOTDIR);
         }
-        let dst = self.resolve(to)?;
+        let dst = self.resolve_create(to)?;
         if dst.ino.is_some() {
             return Err(libc::EEXIST);
         }
@@ -491,8 +548,8 @@ impl SimFs {
     pub fn rename(&mut self, from: &str, to: &str) -> Result<(Ino, Option<Ino>), Errno> {
         // renameat(2): both parent directories are walked first, then the
         // last components are looked up
-        let src = self.resolve(from)?;
-        let dst = self.resolve(to)?;
+        let src = self.resolve_create(from)?;
+        let dst = self.resolve_create(to)?;
         for p in [from, to] {
             let l = last_component(p);
             if l == "." || l == ".." {
@@ -654,6 +711,7 @@ impl SimFs {
         let i = self.inode_mut(ino);
         match &mut i.node {
             Node::Dir(_) => return Err(libc::EISDIR),
+            Node::Symlink(_) => return Err(libc::EINVAL),
             Node::File(d) => {
                 let d = Arc::make_mut(d);
                 let off = off as usize;
@@ -680,6 +738,7 @@ impl SimFs {
         let i = self.inode_mut(ino);
         match &mut i.node {
             Node::Dir(_) => return Err(libc::EISDIR),
+            Node::Symlink(_) => return Err(libc::EINVAL),
             Node::File(d) => {
                 Arc::make_mut(d).resize(len as usize, 0);
             }
@@ -759,6 +818,23 @@ impl SimFs {
         ino
     }
 
+    /// Plants a symbolic link (harness only).
+    pub fn plant_symlink(&mut self, path: &str, target: &str, mtime: Ts) -> Ino {
+        let r = self.resolve(path).expect("plant_symlink: parent");
+        assert!(r.ino.is_none(), "plant_symlink: exists");
+        let ino = self.alloc(Node::Symlink(target.to_string()), 0o777, r.parent);
+        let m = self.trunc(mtime);
+        {
+            let i = self.inode_mut(ino);
+            i.nlink = 1;
+            i.mtime = m;
+            i.atime = m;
+            i.ctime = m;
+        }
+        self.dir_entries_mut(r.parent).insert(r.name, ino);
+        ino
+    }
+
     pub fn list(&self, dir: &str) -> Vec<(String, Ino)> {
         match self.lookup(dir).and_then(|d| self.dir_entries(d).map(|e| e.clone())) {
             Ok(e) => e.into_iter().collect(),
@@ -799,6 +875,7 @@ impl SimFs {
         let i = self.inode(ino);
         match &i.node {
             Node::File(d) => out.push((path.to_string(), self.stat_ino(ino), Some(d.clone()))),
+            Node::Symlink(_) => out.push((path.to_string(), self.stat_ino(ino), None)),
             Node::Dir(e) => {
                 out.push((path.to_string(), self.stat_ino(ino), None));
                 for (n, c) in e.iter() {
